@@ -14,6 +14,7 @@ import (
 
 	"github.com/xelaj/mtproto"
 	"github.com/xelaj/mtproto/internal/encoding/tl"
+	"github.com/xelaj/mtproto/internal/mtproto/objects"
 	"github.com/xelaj/mtproto/telegram"
 	"github.com/xelaj/mtproto/telegram/verifh/refsrv"
 )
@@ -419,6 +420,9 @@ func PushBody(p *PushSpec) []byte {
 	case "nested-container":
 		inner := (&refsrv.W{}).U32(refsrv.IDMsgContainer).U32(1).I64(p.Arg | 1).I32(0).U32(20).Raw((&refsrv.W{}).U32(refsrv.IDPong).I64(p.Arg).I64(p.Arg).B).B
 		w.U32(refsrv.IDMsgContainer).U32(1).I64(p.Arg | 1).I32(0).U32(uint32(len(inner))).Raw(inner)
+	case "gzip-damaged":
+		// Arg: low bits choose the damage, the rest the position; the packed object is an unsolicited rpc_result
+		return refsrv.GzipDamaged(refsrv.RpcResult(p.Arg|1<<40, refsrv.RpcError(400, "SOME_ERROR_TEXT_LONG_ENOUGH_TO_COMPRESS_SOME_ERROR_TEXT_LONG_ENOUGH_TO_COMPRESS")), int(p.Arg>>2)%6, int(p.Arg>>5))
 	case "raw":
 		return p.Body
 	}
@@ -632,6 +636,15 @@ func (e *Env) runRPC() error {
 				continue
 			}
 			id := step.Push.Arg
+			if step.Push.Kind == "last-ack" {
+				// the rejected message is the client's latest acknowledgement: what a server does to an ack that arrives
+				// under a salt it has just retired
+				for _, ev := range e.Hub.Snapshot() {
+					if ev.Kind == "ack" {
+						id = ev.MsgID
+					}
+				}
+			}
 			if step.Push.Kind == "answered" {
 				st.mu.Lock()
 				if l := st.pending[int(step.Push.Arg)]; len(l) > 0 {
@@ -737,6 +750,20 @@ func (e *Env) runRPC() error {
 			if rel != nil {
 				rel()
 			}
+		case "ping":
+			// the keep-alive message the client sends on its own once a minute, sent now: the call is not awaited (the
+			// server answers a ping with a bare pong, which no caller is handed)
+			before := st.e.countCtor("7abe77ec")
+			go func(id int64) {
+				defer func() { recover() }()
+				e.Client.MakeRequest(&objects.PingParams{PingID: id})
+			}(int64(i) + 0x7001)
+			for deadline := time.Now().Add(e.stepPatience()); st.e.countCtor("7abe77ec") == before && time.Now().Before(deadline); {
+				time.Sleep(200 * time.Microsecond)
+			}
+			if st.e.countCtor("7abe77ec") == before {
+				e.Res.Notes = append(e.Res.Notes, fmt.Sprintf("step %d: the ping did not arrive", i))
+			}
 		case "sleep":
 			time.Sleep(time.Duration(step.Ms) * time.Millisecond)
 		case "session-snapshot":
@@ -809,6 +836,9 @@ func inspectStall(blockedCallers int) *Stall {
 			if strings.Contains(g, "startReadingResponses") || strings.Contains(g, ".readMsg") {
 				if strings.Contains(head, "chan send") {
 					loopAt = firstFrame(g)
+				} else if strings.Contains(head, "[running") || strings.Contains(head, "[runnable") {
+					// computing, not waiting: if it is still in the same function seconds later it will not come back
+					loopAt = firstFrame(g) + " [busy]"
 				} else if st := lockState(head); st != "" {
 					// waiting for a lock that nobody releases is as final as a send nobody receives
 					loopAt = firstFrame(g) + " [" + st + "]"
@@ -829,6 +859,12 @@ func inspectStall(blockedCallers int) *Stall {
 	if strings.Contains(a1, " [") && a1 == a2 {
 		// a lock can be contended for a moment: it has to stay that way for another second
 		time.Sleep(time.Second)
+		a2, c2, _ = look()
+	}
+	if strings.HasSuffix(a1, " [busy]") && a1 == a2 {
+		// a busy loop and a goroutine starved by a loaded machine look alike for a while: two more seconds in the same
+		// function of the client (3.3 s in all, after the step's patience has already run out)
+		time.Sleep(2 * time.Second)
 		a2, c2, _ = look()
 	}
 	s := &Stall{LoopAt: a1, Blocked: c1, Dump: dump}
@@ -862,6 +898,17 @@ func firstFrame(g string) string {
 		}
 	}
 	return "?"
+}
+
+// countCtor counts the encrypted client messages with that constructor the servers have seen.
+func (e *Env) countCtor(ctor string) int {
+	n := 0
+	for _, ev := range e.Hub.Snapshot() {
+		if (ev.Kind == "enc" || ev.Kind == "item") && ev.Ctor == ctor {
+			n++
+		}
+	}
+	return n
 }
 
 // unacked lists the content-related messages the servers sent that no received msgs_ack names yet.
